@@ -357,6 +357,8 @@ fn check_defect(st: &mut Stats, d: &Defect) {
                     st.outcome(&format!("{}:rejected-WITHOUT-naming", cls));
                     let sig = if d.sigil == "*standard-cl-22*" {
                         format!("cl22/unnamed-error/{}", cls)
+                    } else if cls == "duplicate-function" && msg.contains("Unbound use of lambda_$_") {
+                        "unnamed-error/duplicate-function/reported-as-unbound-lambda".to_string()
                     } else if cls == "duplicate-function" && msg.contains("no such callable") {
                         "unnamed-error/duplicate-function/reported-as-no-such-callable".to_string()
                     } else {
